@@ -9,7 +9,7 @@ META = {
         "the target's exit is split into the real ABTI_ythread_resume_joiner and the real ABTI_ythread_callback_exit (= exit_to/cancel path; = ABTI_ythread_exit for a joiner on another stream)",
         "the yield-based waits (thread_join_yield_thread) and the target's wait for p_link are cut by unwinding assumptions: schedules in which the other side never proceeds are not violations",
     ],
-    "outside": ["ABT_thread_join_many/free_many beyond the single join", "two simultaneous joiners (undefined by the API)", "tasklet targets/joiners", "the release of the descriptor in ABT_thread_free (C15)"],
+    "outside": ["ABT_thread_join_many/free_many beyond the single join", "external-thread joiner against the exiting ULT as focus (covered from the joiner's side)", "two simultaneous joiners (undefined by the API)", "tasklet targets/joiners", "the release of the descriptor in ABT_thread_free (C15)"],
 }
 SPIN = ["ABTD_spinlock_acquire.0", "ABTD_spinlock_acquire.1", "thread_join_yield_thread@while", "thread_join_busywait@while", "ABTI_ythread_atomic_get_joiner@while", "ABTI_ythread_resume_joiner@while", "ABTD_futex_suspend@while"]
 
@@ -23,6 +23,11 @@ def obligations(tier):
                      encodes=["ABT_thread_join", "thread_join", "thread_join_futexwait", "thread_join_yield_thread", "thread_join_busywait", "ABTI_ythread_suspend_join", "ABTI_ythread_callback_suspend_join", "ABTI_ythread_atomic_get_joiner", "ABTI_ythread_resume_joiner", "ABTI_ythread_callback_exit", "ABTI_thread_terminate", "ABTD_futex_suspend", "ABTD_futex_resume"],
                      bounds="1 joiner, 1 target, <=1 environment step per scheduling point, <=3 while parked; wait loops cut after 2 rounds", symbolic="when the join is issued relative to the target's exit (before/during/after), placement of both exit steps",
                      timeout=900 if tier == "thorough" else 250))
+    o.append(Obl("exit_focus", "C03/exit.c", "the exiting ULT as focus (real ABTI_ythread_exit); the joiner's two real handshake pieces (fetch_or(REQ_JOIN); callback_suspend_join publishing BLOCKED + link) placed by the solver before or at any atomic instruction of the exit, incl. inside its wait for the link; joiner of the same or another stream: a linked joiner is woken exactly once (direct jump or re-push, never both / neither), RUNNING on this stream or READY and queued, blocked count balanced; T ends TERMINATED; T never leaves while a joiner has claimed the join but not linked yet",
+                 real=["src/ythread.c", "src/arch/abtd_futex.c"], hooks=True, defs=["VR_REAL_REQUESTS"], unwind=4, cut_loops=["ABTD_spinlock_acquire.0", "ABTD_spinlock_acquire.1", "ABTI_ythread_atomic_get_joiner@while:3", "ABTI_ythread_resume_joiner@while"], object_bits=12, backend="cadical",
+                 no_std=["--pointer-overflow-check", "--signed-overflow-check", "--undefined-shift-check"],
+                 encodes=["ABTI_ythread_exit", "ABTI_ythread_atomic_get_joiner", "ABTI_ythread_callback_exit", "ABTI_ythread_callback_suspend_join", "ABTI_ythread_resume_and_push", "ABTI_ythread_jump_to_sibling_internal"],
+                 bounds="1 exiting ULT, 1 joiner, <=1 environment step per scheduling point; the wait for the link is cut after 3 rounds (a joiner that claimed the join links eventually)", symbolic="how far the joiner got, when its pieces run, whether it last ran on T's stream", timeout=300))
     # nesting depth 2 adds nothing here: the only environment agent (the target) is busy while one of its steps runs
     return o
 
